@@ -128,6 +128,7 @@ impl ScriptedEntity {
 
 struct ScriptedStream {
     call: u64,
+    start: u64,
     pos: u64,
     end: u64,
     script: Script,
@@ -168,7 +169,9 @@ impl Stream for ScriptedStream {
                         if this.end - this.pos > MAX_HONEST {
                             ('s', 0)
                         } else {
-                            ('y', owed.min(this.script.chunk))
+                            // at most ~6 chunks per stream whatever the configured chunk size
+                            let total = this.end - this.start;
+                            ('y', owed.min(this.script.chunk.max(total / 6 + (total % 6 != 0) as u64)))
                         }
                     } else if this.script.tail == "extra" && !this.extra_done {
                         this.extra_done = true;
@@ -237,6 +240,7 @@ impl http_serve::Entity for ScriptedEntity {
             .unwrap_or_else(|| self.dscript.clone());
         Box::pin(ScriptedStream {
             call,
+            start: range.start,
             pos: range.start,
             end: range.end,
             script,
